@@ -63,13 +63,17 @@ def gen(tier, rng):
         none_tabs = [t for t in range(len(tabs)) if rng.random() < 0.25]
         if wcses == "extra_coords" and len(none_tabs) == len(tabs) and not all_none:
             none_tabs = none_tabs[1:]
-        key = f"{shape}|{A}|{b}|{shifts}|{pts}|{none_groups}|{form}|{wcses}|{tabs}|{own_shifts}|{all_none}|{none_tabs}"
+        none_pp = None
+        if not tabs and npts >= 2 and not all_none and rng.random() < 0.25:
+            # each point has its own None layout (a point may give no coordinate at all)
+            none_pp = [none_groups if rng.random() < 0.4 else [g for g in groups if rng.random() < 0.45] for _ in range(npts)]
+        key = f"{shape}|{A}|{b}|{shifts}|{pts}|{none_groups}|{form}|{wcses}|{tabs}|{own_shifts}|{all_none}|{none_tabs}|{none_pp}"
         cases.append({"key": key, "stratum": f"{ncube}cubes-{form}-{wcses}", "shape": shape, "A": A, "b": b, "shifts": shifts,
                       "groups": groups, "none_groups": none_groups, "pts": pts, "form": form, "wcses": wcses,
-                      "tabs": tabs, "own_shifts": own_shifts, "all_none": all_none, "none_tabs": none_tabs,
+                      "tabs": tabs, "own_shifts": own_shifts, "all_none": all_none, "none_tabs": none_tabs, "none_pp": none_pp,
                       "nontrivial": True,
                       "show": {"shape": shape, "A": A, "b": b, "pixel_shift_of_each_cube": shifts, "pixel_positions_of_points": pts,
-                               "groups_left_None": "ALL" if all_none else none_groups, "form": form, "wcses": wcses,
+                               "groups_left_None": "ALL" if all_none else (none_pp or none_groups), "form": form, "wcses": wcses,
                                "extra_coords(axis,slope,intercept)": tabs, "tables_left_None": none_tabs,
                                "cubes_own_wcs_shifts_when_wcses_is_a_foreign_list": own_shifts}})
     return cases
@@ -95,8 +99,13 @@ def run(case):
         mode = mode.split(":")[1]
     tabs = case.get("tabs") or []
     cubes = []
+    # cropping through the extra coords only: in every other such case all cubes carry one and the same WCS object
+    # (repeated rasters sharing a WCS) while their tables differ
+    import zlib
+    share_wcs = mode == "extra_coords" and zlib.crc32(("share" + case["key"]).encode()) % 2 == 0
+    w_shared = HighLevelWCSWrapper(make_probe(case["A"], _cube_b(case, 0, case.get("own_shifts")), tw=list(range(nd)), tp=list(range(nd))))
     for k in range(len(case["shifts"])):
-        w = make_probe(case["A"], _cube_b(case, k, case.get("own_shifts")), tw=list(range(nd)), tp=list(range(nd)))
+        w = w_shared if share_wcs else make_probe(case["A"], _cube_b(case, k, case.get("own_shifts")), tw=list(range(nd)), tp=list(range(nd)))
         cube = NDCube(np.arange(int(np.prod(shape))).reshape(shape) + 1000 * k, wcs=w)
         for t, (ax, slope, icpt) in enumerate(tabs):
             sk = case["shifts"][k][nd - 1 - ax]
@@ -119,12 +128,24 @@ def run(case):
         if {int(x) for x in pi} <= none_pix:
             none_w |= {int(x) for x in wi}
     use_objects = case["form"] == "objects"
+    # per point: the pixel axes / world axes left None (one layout for all points unless the case gives one per point)
+    none_pix_pt, none_w_pt = [set(none_pix) for _ in pix_pts], [set(none_w) for _ in pix_pts]
+    if case.get("none_pp") and not tabs and not case.get("all_none"):
+        none_pix_pt = [{px for g in layout for px in g} for layout in case["none_pp"]]
+        none_w_pt = []
+        for npx in none_pix_pt:
+            ws_ = set()
+            for pi_, wi_ in _split_matrix(np.asarray(target.axis_correlation_matrix)):
+                if {int(x) for x in pi_} <= npx:
+                    ws_ |= {int(x) for x in wi_}
+            none_w_pt.append(ws_)
+        none_pix = set.intersection(*none_pix_pt)           # axes no point gives a coordinate for
 
-    def wcs_part(w):
+    def wcs_part(w, pi=0):
         if use_objects:
             objs = values_to_high_level_objects(*[float(x) for x in w], low_level_wcs=target)
-            return [None if i in none_w else o for i, o in enumerate(objs)]
-        return [None if i in none_w else float(x) * u.m for i, x in enumerate(w)]
+            return [None if i in none_w_pt[pi] else o for i, o in enumerate(objs)]
+        return [None if i in none_w_pt[pi] else float(x) * u.m for i, x in enumerate(w)]
 
     # ExtraCoords keeps its tables sorted by array axis? ask the first cube for the order of its world axes
     tab_order = []
@@ -148,7 +169,7 @@ def run(case):
         pts = [wcs_part(w) + tab_part(p) for w, p in zip(wcs_world, pix_pts)]
         touched = {nd - 1 - px for px in range(nd) if px not in none_pix}
     else:
-        pts = [wcs_part(w) for w in wcs_world]
+        pts = [wcs_part(w, pi) for pi, w in enumerate(wcs_world)]
         touched = {nd - 1 - px for px in range(nd) if px not in none_pix}
     kw = {}
     if mode == "list":
@@ -234,7 +255,7 @@ def run(case):
                 continue
             los, his = [], []
             for k in range(len(cubes)):
-                idxs = [int(np.floor(float(p[px] - case["shifts"][k][px]) + 0.5)) for p in pix_pts]
+                idxs = [int(np.floor(float(p[px] - case["shifts"][k][px]) + 0.5)) for pi_, p in enumerate(pix_pts) if not (case.get("none_pp") and px in none_pix_pt[pi_])]
                 lo = max(min(idxs), 0)
                 hi = max(min(max(idxs) + 1, shape[a]), lo)
                 los.append(lo)
@@ -268,7 +289,7 @@ def run(case):
             except Exception as e:  # noqa
                 why.append(f"cropping the result again with the same arguments raised {exc_name(e)}")
     return {"out": out, "oracle": {"ok": not why, "why": "; ".join(why[:3]), "finding": None},
-            "world": [[None if i in none_w else [Fr(float(x)).numerator, Fr(float(x)).denominator] for i, x in enumerate(w)] for w in wcs_world]}
+            "world": [[None if i in none_w_pt[pi_] else [Fr(float(x)).numerator, Fr(float(x)).denominator] for i, x in enumerate(w)] for pi_, w in enumerate(wcs_world)]}
 
 
 def coq_case(case, res):
